@@ -12,7 +12,7 @@
 //!     active account and a digest of the wallet directory - before and after.
 //! It never judges: spec/TraceOwnerGate.tla does.
 //!
-//! histories.json: {"setup": {"seed": n}, "behaviours": [ {"open0": bool, "reqs": [q,...]} | [q,...] , ...]}
+//! histories.json: {"setup": {"seed": n}, "behaviours": [ {"open0": bool, "foreign": bool, "reqs": [q,...]} | [q,...] , ...]}
 mod client;
 mod wire;
 
@@ -144,7 +144,7 @@ struct Sut {
 	atoms: Vec<(String, String)>,
 }
 
-fn new_sut(t: &Template, dir: &str, open0: bool, seed: u64) -> Sut {
+fn new_sut(t: &Template, dir: &str, open0: bool, foreign: bool, seed: u64) -> Sut {
 	let _ = std::fs::remove_dir_all(dir);
 	copy_dir(Path::new(&t.dir), Path::new(dir));
 	let mut wallet = Box::new(DefaultWalletImpl::<DirectNode>::new(t.node.clone()).unwrap())
@@ -158,7 +158,9 @@ fn new_sut(t: &Template, dir: &str, open0: bool, seed: u64) -> Sut {
 		}
 	}
 	let wallet: W = Arc::new(Mutex::new(wallet));
-	let handler = OwnerAPIHandlerV3::new(wallet.clone(), Arc::new(Mutex::new(None)), None, false);
+	// as `owner_listener` does: the mask obtained when the wallet was opened at start-up is shared
+	// with the handler (it is only ever replaced when the foreign API runs on the same listener)
+	let handler = OwnerAPIHandlerV3::new(wallet.clone(), Arc::new(Mutex::new(token.clone())), None, foreign);
 	let mut atoms = t.atoms.clone();
 	atoms.push(("tld".to_string(), dir.to_string()));
 	let mut client = Client::new(seed);
@@ -186,7 +188,18 @@ impl Sut {
 			let mut l = self.wallet.lock();
 			l.lc_provider().and_then(|lc| lc.get_top_level_directory()).unwrap_or_default()
 		};
-		json!({"sess": sess, "ngen": self.client.keys.len(), "open": open, "active": active, "tld": tld == self.dir, "dig": store_digest(&self.dir)})
+		let mask = {
+			let m = self.handler.keychain_mask.lock();
+			match m.as_ref() {
+				None => "".to_string(),
+				Some(k) => {
+					let mut h = Sha256::new();
+					h.update(&k.0);
+					h.finalize().iter().take(4).map(|b| format!("{:02x}", b)).collect()
+				}
+			}
+		};
+		json!({"sess": sess, "ngen": self.client.keys.len(), "mask": mask, "open": open, "active": active, "tld": tld == self.dir, "dig": store_digest(&self.dir)})
 	}
 
 	fn leaks(&self, text: &str) -> Vec<String> {
@@ -281,13 +294,17 @@ impl Sut {
 }
 
 fn run_behaviour(t: &Template, dir: &str, beh: &Value, bid: usize, seed: u64) -> Vec<String> {
-	let (open0, reqs): (bool, Vec<Value>) = match beh {
-		Value::Array(a) => (false, a.clone()),
-		o => (o["open0"].as_bool().unwrap_or(false), o["reqs"].as_array().cloned().unwrap_or_default()),
+	let (open0, foreign, reqs): (bool, bool, Vec<Value>) = match beh {
+		Value::Array(a) => (false, false, a.clone()),
+		o => (
+			o["open0"].as_bool().unwrap_or(false),
+			o["foreign"].as_bool().unwrap_or(false),
+			o["reqs"].as_array().cloned().unwrap_or_default(),
+		),
 	};
-	let mut sut = new_sut(t, dir, open0, seed ^ ((bid as u64) << 20));
+	let mut sut = new_sut(t, dir, open0, foreign, seed ^ ((bid as u64) << 20));
 	let mut out = vec![];
-	out.push(json!({"ev": "reset", "b": bid, "open0": open0, "post": sut.obs()}).to_string());
+	out.push(json!({"ev": "reset", "b": bid, "open0": open0, "foreign": foreign, "post": sut.obs()}).to_string());
 	for q in reqs.iter() {
 		let mut l = sut.step(q);
 		l["b"] = json!(bid);
